@@ -952,7 +952,7 @@ pub fn run(cfg: &Cfg) -> Outcome {
     let local = run_parallel(
         cfg,
         33,
-        RunLimits { cases: n, wall: Duration::from_secs(if cfg.thorough() { 840 } else { 100 }) },
+        RunLimits { cases: n, wall: Duration::from_secs(if cfg.thorough() { 780 } else { 100 }) },
         |l, rng, idx| one_case(cfg, l, rng, idx, &oparse),
     );
     let stores = local.counters.get("cstore_received").copied().unwrap_or(0);
